@@ -354,17 +354,18 @@ func growMessageByEntry(m *raftpb.Message, target int) {
 
 // Witness of a C16 violation.
 type Witness struct {
-	Seed    int64                  `json:"seed"`
-	Tier    string                 `json:"tier"`
-	Clause  string                 `json:"clause"` // roundtrip | truncation | corruption | captured
-	Stream  *Stream                `json:"stream"`
-	MsgIdx  int                    `json:"message_index"`
-	Local   uint64                 `json:"local_node"`
-	Remote  uint64                 `json:"remote_node"`
-	Msgs    []raftpb.Message       `json:"messages,omitempty"` // explicit (shrunk) sequence when small
-	Shrunk  bool                   `json:"shrunk"`
-	Detail  map[string]interface{} `json:"detail,omitempty"`
-	Summary string                 `json:"summary"`
+	Seed     int64                  `json:"seed"`
+	Tier     string                 `json:"tier"`
+	Clause   string                 `json:"clause"` // roundtrip | truncation | corruption | captured
+	Stream   *Stream                `json:"stream"`
+	MsgIdx   int                    `json:"message_index"`
+	Local    uint64                 `json:"local_node"`
+	Remote   uint64                 `json:"remote_node"`
+	Msgs     []raftpb.Message       `json:"messages,omitempty"` // explicit (shrunk) sequence when small
+	Scenario *StreamScenario        `json:"scenario,omitempty"` // clause stream-reattach: the whole run
+	Shrunk   bool                   `json:"shrunk"`
+	Detail   map[string]interface{} `json:"detail,omitempty"`
+	Summary  string                 `json:"summary"`
 }
 
 func totalSize(msgs []raftpb.Message) int {
@@ -431,7 +432,7 @@ func runC16(c *vc.Ctx) error {
 	defer debug.SetMemoryLimit(debug.SetMemoryLimit(3 << 30))
 	stopGuard := startRSSGuard(c, 4<<30)
 	defer stopGuard()
-	c.Ev.Rule = "message sequences (function of seed and stream index) are written by the real stream encoders and read back by the real decoders: (a) 'message' codec: every message type with arbitrary field values; (b) 'msgappv2' codec: MsgApp + link heartbeats of 1-4 interleaved raft groups between one node pair, as raft.send/peer.pick produce them, with runs of continuing appends, term changes, index gaps, empty appends, entries of 0/1 bytes and frames at 1 MiB-1/1 MiB/1 MiB+1; (c) sequences captured from a real 3-node, multi-group raft run. Oracle: field-wise equality immediately and again after the whole stream; every truncation offset (streams <= 64 KiB, sampled above) yields the sent prefix then an error; single-byte corruption yields an error or identical messages. " +
+	c.Ev.Rule = "message sequences (function of seed and stream index) are written by the real stream encoders and read back by the real decoders: (a) 'message' codec: every message type with arbitrary field values; (b) 'msgappv2' codec: MsgApp + link heartbeats of 1-4 interleaved raft groups between one node pair, as raft.send/peer.pick produce them, with runs of continuing appends, term changes, index gaps, empty appends, entries of 0/1 bytes and frames at 1 MiB-1/1 MiB/1 MiB+1; (c) sequences captured from a real 3-node, multi-group raft run. Oracle: field-wise equality immediately and again after the whole stream; every truncation offset (streams <= 64 KiB, sampled above) yields the sent prefix then an error; single-byte corruption yields an error or identical messages. (d) stream level (signatures stream-reattach/*): the real streamWriter goroutine is driven through in-memory connections with the same kinds of sequences, the connection is replaced at seed-chosen points with and without a preceding write error, and every connection's bytes are read by a fresh real decoder as streamReader does per connection: a connection without write error yields exactly the messages handed to it while it was working (the driver re-attaches only after the writer has taken them), one with a write error yields a prefix of them, and nothing is written to a closed connection. " +
 		"A stream is non-trivial when it holds >= 2 messages; distinct per (codec, frame-type sequence, group interleaving pattern)."
 	c.Ev.Assume("msgappv2 is checked only inside the domain the transport gives it (MsgApp and link heartbeats, From/To equal to the replica ids of FromGroup/ToGroup, FromGroup.NodeId = sending node, ToGroup.NodeId = receiving node, group name a function of the group identity, Term >= 1, LogTerm <= Term, entries consecutive from Index+1)")
 	c.Ev.Assume("byte fields are compared as byte strings: nil and empty are the same value")
@@ -602,6 +603,58 @@ func runC16(c *vc.Ctx) error {
 		}
 	})
 
+	// stream level: the real streamWriter with re-attached connections
+	phase.Store("stream writer re-attach")
+	rafthttp.SetLogLevel(-1)
+	nScen := c.Pick(600, 12000)
+	var scStats scenarioStats
+	scKinds := map[string]int64{}
+	c.ParallelFor(nScen, func(i int) {
+		sc := genStreamScenario(c.Seed, i)
+		p, st, err := runStreamScenario(sc)
+		c.Ev.Eval()
+		if err != nil {
+			c.Inconclusive(fmt.Sprintf("stream-reattach scenario %d: %v", i, err))
+			return
+		}
+		mu.Lock()
+		scKinds[sc.codec()+"/"+sc.Kind]++
+		scStats.reattachPlain += st.reattachPlain
+		scStats.reattachAfterError += st.reattachAfterError
+		scStats.boundaryContinuing += st.boundaryContinuing
+		scStats.handed += st.handed
+		scStats.decoded += st.decoded
+		scStats.lostAllowed += st.lostAllowed
+		scStats.unreachableReports += st.unreachableReports
+		if p != nil {
+			reported[p.Sig]++
+		}
+		first := p != nil // scenarios are small and a run takes about a millisecond: every witness is shrunk
+		mu.Unlock()
+		if st.reattachPlain+st.reattachAfterError > 0 {
+			c.Ev.Nontrivial("stream:" + st.pattern)
+		}
+		if p != nil {
+			w := Witness{Seed: c.Seed, Tier: c.Tier, Clause: "stream-reattach", Scenario: sc, MsgIdx: p.MsgIdx, Local: sc.Local, Remote: sc.Remote, Summary: p.Summary}
+			if first {
+				w.Scenario, w.Shrunk = shrinkScenario(sc, p.Sig), true
+			}
+			c.Violation(p.Sig, p.Summary, w)
+		}
+	})
+	c.Ev.Set("stream_reattach", map[string]interface{}{
+		"scenarios_by_kind":            scKinds,
+		"reattach_without_write_error": scStats.reattachPlain,
+		"reattach_after_write_error":   scStats.reattachAfterError,
+		"first_message_after_reattach_continues_the_last_one_of_the_old_connection": scStats.boundaryContinuing,
+		"messages_handed_to_a_working_connection":                                   scStats.handed,
+		"messages_read_back_by_fresh_decoders":                                      scStats.decoded,
+		"messages_lost_on_connections_with_a_write_error_allowed":                   scStats.lostAllowed,
+		"report_unreachable_calls":                                                  scStats.unreachableReports,
+	})
+	fmt.Printf("C16 stream-reattach: %d scenarios %v: %d re-attaches without and %d after a write error, %d boundaries where the next append continues the old connection, %d handed, %d read back, %d lost on failed connections (allowed)\n",
+		nScen, scKinds, scStats.reattachPlain, scStats.reattachAfterError, scStats.boundaryContinuing, scStats.handed, scStats.decoded, scStats.lostAllowed)
+
 	// single-byte corruption (child processes: a corrupted length may kill the process)
 	phase.Store("corruption children")
 	if err := runCorruption(c, pl); err != nil {
@@ -647,6 +700,25 @@ func replayC16(c *vc.Ctx) error {
 		return err
 	}
 	w := doc.Witness
+	if w.Clause == "stream-reattach" {
+		if w.Scenario == nil {
+			return fmt.Errorf("replay file carries no scenario")
+		}
+		rafthttp.SetLogLevel(-1)
+		c.Ev.Eval()
+		p, st, err := runStreamScenario(w.Scenario)
+		fmt.Printf("C16 replay: stream-reattach scenario, %d messages, %d connections (%s)\n", len(w.Scenario.Msgs), len(w.Scenario.Segments), st.pattern)
+		if err != nil {
+			c.Inconclusive(err.Error())
+			return nil
+		}
+		if p == nil {
+			fmt.Printf("C16 replay: recorded signature %s did NOT reproduce\n", doc.Signature)
+			return nil
+		}
+		c.Violation(p.Sig, p.Summary, Witness{Seed: w.Seed, Tier: w.Tier, Clause: w.Clause, Scenario: w.Scenario, MsgIdx: p.MsgIdx, Local: w.Local, Remote: w.Remote, Summary: p.Summary})
+		return nil
+	}
 	var s *Stream
 	switch {
 	case len(w.Msgs) > 0 && w.Stream != nil:
